@@ -5,6 +5,33 @@ import json, pathlib
 ALL = [f'C{i:02d}' for i in range(1, 20)]
 
 CHECKS = {
+ 'C04': dict(
+   technique='Coq proof over R (trigonometric identities for the two arcs of an S-bend, squared length, circle membership, sinusoidal end points) and over Q (linear / end) + differential on the appended block of every segment call',
+   text='Props/C04.v: for every radius r > 0 and offset |dy| <= 4r the two arcs of an S-bend start at the current point, end at '
+        '(x0 + L, y0 +- |dy|) with L^2 = 4 r |dy| - dy^2, L >= 0, and every arc point lies on its circle of radius r; couplers / MZIs '
+        'return to the entry y after 2L+|int| (4L+2|int|+|arm|); sinusoidal bends reach dy, bridges return to the original depth '
+        'and peak at z0+dz, comp segments return to y0; linear ABS/INC handle missing coordinates; end returns to the first point '
+        'closed. Tie to /repo: random call sequences on real Waveguides (all segment kinds, both signs, zero, per-call and '
+        'attribute radius / speed / lengths, after arbitrary prefixes); for every call the appended block must start exactly at '
+        'the path end, keep feed and shutter, and satisfy the rational relations (squared length, circle membership of every arc '
+        'sample, end displacements) on femto\'s float32 points; the coupler helper is checked for int_dist at the centre and one '
+        'pitch at the ends.',
+   note='Trusted: Coq kernel with the Reals axioms (sig_forall_dec, sig_not_dec, functional_extensionality_dep) and '
+        'Classical_Prop.classic (through acos); numpy trigonometry and scipy BPoly as oracles; float32 tolerance 5e-6*(1+|v|); '
+        'interior points of sinusoidal / spline curves are not characterised.',
+   design='5/C04'),
+ 'C10': dict(
+   technique='Coq proof (invariant over all histories of the single store point add_path and of the single print point _format_args, with the float32 cast modelled) + degenerate-value differential on every builder in resource-limited child processes',
+   text='Props/C10.v: whatever blocks the builders hand to add_path, in any order, the stored trajectory only ever holds finite '
+        'coordinates and finite positive feeds (a refused block raises and leaves the path unchanged); nothing non-finite is '
+        'printed by _format_args. Tie to /repo: every builder of Waveguide / Marker / RasterImage and move_to / write / set_home '
+        'is called with arguments and object parameters from {0, denormal, 1e-30, 1e-6, 1, 1e6, 1e38, 3.5e38, 1e150} (both '
+        'signs); after the call the recorded arrays are shipped to the Coq invariant checker and the emitted instructions are '
+        'lexed (a non-fixed-point number is an error).',
+   note='Trusted: Coq kernel; that every builder stores through add_path / prints through _format_args is observed, not proved; '
+        'IEEE overflow and NaN generation inside numpy are not modelled; femto runs under RLIMIT_AS 4 GiB and a 2 s per-call '
+        'limit (resource exhaustion counts as raising).',
+   design='5/C10'),
  'C17': dict(
    technique='Coq proof for an arbitrary surface function s (x, y untouched; z\' = k (z + s(x,y)); flat surface = plain transform) + value-level differential with scipy\'s interpolant as oracle, sample reproduction and smoothness checks',
    text='Props/C17.v: for every interpolant s, configuration and point the compensated map leaves x\' and y\' exactly those of the plain '
